@@ -15,7 +15,15 @@ package didnuts
 // bounded exception (c09World.fork): a controller document whose deactivation is concurrent with a key-adding update; the
 // store merges both, the document stays deactivated although it lists keys, and the record says it authorises nothing.
 //
+// Routes and signing times: every pair goes through handleNetworkEvent; a transaction that is on the DAG is re-delivered
+// 0..2 times at once, and possibly later in the history, through handleReprocessEvent (message bound to an in-memory
+// JetStream subscription, see zz_verif_shared_reprocess_test.go) - the verdict is route independent. The signing time of an
+// update is independent of causal order (c09Skews); the record orders by prevs / clock. Refusals that rest on a controller
+// look-up as of the signing time are demanded only when that time is not before a version already stored.
+//
 // Oracles
+//   reprocess-made-effective:<verdict>  a refused pair had an effect when it came by again through the REPROCESS route
+//   redelivery-changed-state            a second delivery of an accepted pair changed an answer
 //   accepted-unauthorised:<class>   an update/creation the reference model does not authorise was accepted
 //   accepted-invalid-doc:<rule>     a document built to violate exactly one DID-core / Nuts method rule was accepted
 //   resolvable-malformed:<rule>     a document that became resolvable violates a method rule (independent checker on the
@@ -1482,9 +1490,9 @@ func (w *c09World) redeliver(e *c09Delivered, n int, when string) {
 	sort.Strings(changed)
 	x.Logf("%s re-delivered through REPROCESS (%s, delivery %d): %d database entries changed", e.label, when, n, len(changed))
 	if len(changed) > 0 {
-		sig := "redelivery-changed-state:"
+		sig := "redelivery-changed-state|"
 		if !e.accepted {
-			sig = "reprocess-made-effective:" + verdict + ":"
+			sig = "reprocess-made-effective:" + verdict + "|"
 		}
 		o := &c09Offer{label: e.label + " [REPROCESS " + when + "]", class: e.class}
 		if !w.compareFull(prevPath, e.pend, o, sig, func(c09Query) bool { return true }, fmt.Sprintf("delivery %d through the REPROCESS route, database entries %v changed", n, changed)) {
@@ -1511,7 +1519,11 @@ func (w *c09World) compareFull(prevPath string, pend c09Pending, o *c09Offer, si
 	rb, ra := c09Eval(qb), c09Eval(qa)
 	for i := range qb {
 		if only(qb[i]) && rb[i] != ra[i] {
-			x.Violate(sigPrefix+qb[i].label, "%s (%s): %s: %s changed\n before: %s\n after:  %s", o.label, o.class, why, qb[i].what, c09Short(rb[i]), c09Short(ra[i]))
+			sig := sigPrefix + qb[i].label
+			if strings.HasSuffix(sigPrefix, "|") {
+				sig = strings.TrimSuffix(sigPrefix, "|") // one signature whatever question shows it first
+			}
+			x.Violate(sig, "%s (%s): %s: %s changed\n before: %s\n after:  %s", o.label, o.class, why, qb[i].what, c09Short(rb[i]), c09Short(ra[i]))
 			return false
 		}
 	}
